@@ -34,4 +34,4 @@ json.dump({"property": "$PID", "seed": "$K", "demo_exit_clean": $DC, "demo_exit_
 PY
 echo "$PID-$K demo clean=$DC patched=$DP tests: $TR | check exit=$CE violations=$VL"
 grep -E "^(VIOLATION|UNDECIDED|#)" $OUT/check_patched.log | head -4 | cut -c1-220
-rm -rf /var/tmp/pyvc-scratch-evidence
+find /var/tmp/pyvc-scratch-evidence -mindepth 1 -maxdepth 1 -mmin +120 -exec rm -rf {} + 2>/dev/null
